@@ -11,8 +11,10 @@ import (
 	goerrors "errors"
 	"fmt"
 	"os"
+	"path/filepath"
 	"reflect"
 	"regexp"
+	"runtime"
 	"sort"
 	"strings"
 	"syscall"
@@ -68,6 +70,9 @@ type Acc struct {
 	OS     []bool   `json:"os"`     // oserror.IsPermission / IsExist / IsNotExist / IsTimeout
 	Frames []string `json:"frames"` // per layer with a reportable stack: hash of its frames' function names and lines
 	Source string   `json:"source"` // one-line source "file:line:fn" ("" if none)
+	// per layer of the single-cause chain, outermost first: "file:line:fn" of the
+	// innermost frame of its own reportable stack ("" if it has none)
+	ChainTops []string `json:"chainTops"`
 }
 
 func safeError(e error) (s string, ok bool) {
@@ -236,6 +241,15 @@ func AccOf(e error) *Acc {
 	}
 	if file, line, fn, ok := errors.GetOneLineSource(e); ok {
 		a.Source = fmt.Sprintf("%s:%d:%s", file, line, fn)
+	}
+	a.ChainTops = []string{}
+	for c := e; c != nil; c = errors.UnwrapOnce(c) {
+		top := ""
+		if st := errors.GetReportableStackTrace(c); st != nil && len(st.Frames) > 0 {
+			f := st.Frames[len(st.Frames)-1]
+			top = fmt.Sprintf("%s:%d:%s", filepath.Base(f.Filename), f.Lineno, f.Function)
+		}
+		a.ChainTops = append(a.ChainTops, top)
 	}
 	return a
 }
@@ -635,6 +649,7 @@ type Report struct {
 	NExc       int        `json:"nexc"`       // exceptions
 	Synthetic  bool       `json:"synthetic"`  // single exception without stack trace
 	ExcFrames  bool       `json:"excFrames"`  // k-th exception carries the frames of the k-th stack-carrying layer, outermost first
+	ExcOwn     bool       `json:"excOwn"`     // for layers with a live stack: the exception's frames are that layer's own program counters
 	ExcModule  bool       `json:"excModule"`  // every exception's module is the error's domain
 	NStack     int        `json:"nstack"`     // layers with a reportable stack trace
 	Types      [][]string `json:"types"`      // "error types" extra: [type name, family or *, extension] per line
@@ -681,9 +696,24 @@ func ReportOf(e error) *Report {
 	}
 	r.NExc = len(ev.Exception)
 	var stacks []*errors.ReportableStackTrace
+	var own []string // lines of the layer's own program counters, oldest first ("" = no live stack)
 	for _, n := range VisNodes(e) {
 		if st := errors.GetReportableStackTrace(n); st != nil {
 			stacks = append(stacks, st)
+			o := ""
+			if sp, ok := n.(errbase.StackTraceProvider); ok {
+				pcs := sp.StackTrace()
+				var b strings.Builder
+				for i := len(pcs) - 1; i >= 0; i-- {
+					pc := uintptr(pcs[i]) - 1
+					if fn := runtime.FuncForPC(pc); fn != nil {
+						_, line := fn.FileLine(pc)
+						fmt.Fprintf(&b, "%d;", line)
+					}
+				}
+				o = b.String()
+			}
+			own = append(own, o)
 		}
 	}
 	r.NStack = len(stacks)
@@ -697,6 +727,21 @@ func ReportOf(e error) *Report {
 				if framesKey(stacks[k]) != framesKey(ev.Exception[k].Stacktrace) {
 					r.ExcFrames = false
 				}
+			}
+		}
+	}
+	r.ExcOwn = true
+	if len(stacks) == len(ev.Exception) {
+		for k := range stacks {
+			if own[k] == "" || ev.Exception[k].Stacktrace == nil {
+				continue
+			}
+			var b strings.Builder
+			for _, f := range ev.Exception[k].Stacktrace.Frames {
+				fmt.Fprintf(&b, "%d;", f.Lineno)
+			}
+			if b.String() != own[k] {
+				r.ExcOwn = false
 			}
 		}
 	}
